@@ -129,6 +129,8 @@ type Scenario struct {
 	TmpOther bool     `json:"tmp_other_fs,omitempty"`
 	Env      []string `json:"env,omitempty"`
 	Plan     Plan     `json:"plan"`
+	// WatchdogS overrides the wall-clock watchdog (seconds) for scenarios that are expected to hang
+	WatchdogS int `json:"watchdog_s,omitempty"`
 	// StdoutDevFull connects stdout to the real /dev/full (every write fails with ENOSPC in the kernel)
 	StdoutDevFull bool `json:"stdout_dev_full,omitempty"`
 	// Strace injection (thorough tier): e.g. "renameat:error=EBUSY"
